@@ -53,6 +53,12 @@ int rf_wavheader_decode(const uint8_t *p, unsigned int sz, rf_wavheader_t *wh)
 			wh->channel_mask = rf_unpack_u32le(&pack);
 			rf_unpack_bytes(&pack, wh->sub_format, 16);
 		} else {
+			/* refuse a fmt chunk whose length can neither be
+			 * represented by our return value nor by the cursor
+			 * arithmetic of rf_pack
+			 */
+			if (wh->fmt_chunk_size - 18 > 0x7fffff00)
+				return -EINVAL;
 			rf_unpack_bytes(&pack, NULL, (wh->fmt_chunk_size - 18));
 		}
 	}
@@ -216,7 +222,7 @@ static const char *format_tostring(rf_wavheader_format_t format)
 char *rf_wavheader_tostring(rf_wavheader_t *wh)
 {
 	return strdup_printf("WAVE file: %d samples in %s %dch %dHz",
-			wh->data_chunk_size / (wh->block_align),
+			wh->block_align ? wh->data_chunk_size / wh->block_align : 0,
 			format_tostring(rf_wavheader_get_format(wh)),
 			wh->num_channels, wh->sample_rate);
 
